@@ -24,6 +24,10 @@ STUB_SIGS = {
     'vp_stub_allocate16': ('Tins::PDU*', ['uint16_t', 'const uint8_t*', 'uint32_t']),
     'vp_stub_allocate8': ('Tins::PDU*', ['uint8_t', 'const uint8_t*', 'uint32_t']),
     'vp_stub_opt_append': ('void', ['void*', 'void*']),
+    'vp_stub_inner_ctor_raw': ('void', ['void*', 'const uint8_t*', 'uint32_t']),
+    'vp_stub_dispatch4_raw': ('Tins::PDU*', ['uint32_t', 'const uint8_t*', 'uint32_t', 'bool']),
+    'vp_stub_dispatch3_raw': ('Tins::PDU*', ['uint32_t', 'const uint8_t*', 'uint32_t']),
+    'vp_stub_from_bytes_raw': ('Tins::PDU*', ['const uint8_t*', 'uint32_t']),
     'vp_stub_opt_reserve': ('void', ['void*', 'uint64_t']),
     'vp_stub_tcp_emplace3': ('void', ['void*', 'const uint32_t*', 'const uint8_t* const*', 'const uint8_t* const*']),
     'vp_stub_tcp_emplace2': ('void', ['void*', 'const uint32_t*', 'const int*']),
